@@ -18,8 +18,8 @@ import (
 	eswriter "github.com/siglens/siglens/pkg/es/writer"
 	"github.com/siglens/siglens/pkg/segment/memory/limit"
 	"github.com/siglens/siglens/pkg/segment/query"
-	serverutils "github.com/siglens/siglens/pkg/server/utils"
 	"github.com/siglens/siglens/pkg/segment/writer"
+	serverutils "github.com/siglens/siglens/pkg/server/utils"
 	vtable "github.com/siglens/siglens/pkg/virtualtable"
 )
 
